@@ -31,7 +31,7 @@ pub fn run(ctx: &mut Ctx) {
     let n_subnets = 1 + ctx.tape.choose(3) as u8;
     let filler_pct = *ctx.tape.pick(&[0u32, 30, 60, 85]);
     let incoming_limit = if ctx.tape.choose(3) == 0 { ctx.tape.choose(17) as usize } else { 16 };
-    let nops = 20 + ctx.tape.choose(if ctx.tier == crate::core::Tier::Quick { 120 } else { 300 });
+    let nops = 20 + ctx.tape.choose(if ctx.tier == crate::core::Tier::Quick { 260 } else { 300 });
 
     let local_spec = ident::RecSpec { ident: local_ix, seq: 1, ip4: Some(([127, 0, 0, 1], 9000)), ip6: None, pad: 0 };
     let local_enr = ident::record(local_spec);
@@ -117,6 +117,10 @@ pub fn run(ctx: &mut Ctx) {
     }
     let nops = nops + forced.len() as u32;
 
+    // the identity that most recently became a bucket's pending candidate: status reports, record
+    // updates and entry operations are aimed at it more often than chance would (things that happen to
+    // a candidate while it waits are where the limits are easiest to get wrong)
+    let mut last_pending: Option<usize> = None;
     for _opn in 0..nops {
         if ctx.failed() {
             return;
@@ -124,6 +128,8 @@ pub fn run(ctx: &mut Ctx) {
         let now = interpose::manual_now_ns() / 1_000_000;
         let (kind, ix, connected, incoming, arg) = if let Some(ix) = forced.pop_front() {
             (0u32, ix, ctx.tape.choose(4) != 0, false, 0u32)
+        } else if last_pending.is_some() && ctx.tape.choose(4) == 0 {
+            (*ctx.tape.pick(&[9u32, 9, 6, 12]), last_pending.unwrap(), ctx.tape.choose(2) == 1, ctx.tape.choose(3) == 0, ctx.tape.choose(6))
         } else {
             (ctx.tape.choose(16), *ctx.tape.pick(&ids), ctx.tape.choose(2) == 1, ctx.tape.choose(3) == 0, ctx.tape.choose(6))
         };
@@ -141,7 +147,10 @@ pub fn run(ctx: &mut Ctx) {
                 match &r {
                     InsertResult::Failed(FailureReason::BucketFilter) => ctx.count("refused_bucket_filter"),
                     InsertResult::Failed(FailureReason::TableFilter) => ctx.count("refused_table_filter"),
-                    InsertResult::Pending { .. } => ctx.count("pending_created"),
+                    InsertResult::Pending { .. } => {
+                        last_pending = Some(ix);
+                        ctx.count("pending_created")
+                    }
                     _ => {}
                 }
                 ctx.ev(format!("t={now}ms insert_or_update #{ix} b{b} {} conn={connected} inc={incoming} -> {}", spec_str(&spec_now), ins_name(&r)));
